@@ -39,6 +39,7 @@ type LoadedHandler struct {
 }
 
 func LoadHandler(s Spec) (*LoadedHandler, error) {
+	s.exportEnv()
 	ctx, cancel := caddy.NewContext(caddy.Context{Context: context.Background()})
 	cfg := s.Config
 	if len(cfg) == 0 {
